@@ -727,7 +727,7 @@ class StmtMixin:
         f2 = self.inv_frame(fr, st_entry, extra)
         for j, text, tags in self.clauses(inv.inv):
             v = self.ev1(self.parse_spec(text), st, f2)
-            self.oblige(st, '%s#loop[%d].%s[%d]' % (fr.prefix, idx, phase, j), truthy(v), {'text': text, 'tags': tags})
+            self.oblige(st, '%s#loop[%d].%s[%s]' % (fr.prefix, idx, phase, j), truthy(v), {'text': text, 'tags': tags})
 
     def assume_inv(self, st, fr, inv, idx, st_entry, extra):
         f2 = self.inv_frame(fr, st_entry, extra)
